@@ -406,7 +406,12 @@ func (d *driver) numberSegReqs(rep *repInfo, base int64, count int) []segReq {
 	for i := 0; i < count; i++ {
 		n := base + int64(i)
 		now := (n+1)*dur + dur + 200 + int64(d.rng.Intn(3000))
-		res = append(res, segReq{Path: strings.ReplaceAll(rep.Media, "$Number$", strconv.FormatInt(n, 10)), N: int(n), T: noVal, Now: now})
+		rq := segReq{Path: strings.ReplaceAll(rep.Media, "$Number$", strconv.FormatInt(n, 10)), N: int(n), T: noVal, Now: now}
+		if n >= 1<<31-1 {
+			// TLC integers are 32 bit: carry huge numbers as strings (they are identifiers only)
+			rq.N, rq.T = -1, "#"+strconv.FormatInt(n, 10)
+		}
+		res = append(res, rq)
 	}
 	return res
 }
@@ -455,8 +460,12 @@ func (d *driver) runScenario(a *assetInfo, md drmMode, dl delivery, base int64, 
 	}
 	d.w.Emit(tr.E{"ev": "mpd", "status": code, "as": ass, "url": mpdURL})
 	laurl := map[string]string{}
+	anyLaurl := noVal
 	for _, x := range ass {
 		laurl[x.Kind] = x.Laurl
+		if x.Laurl != noVal && anyLaurl == noVal {
+			anyLaurl = x.Laurl
+		}
 	}
 
 	for ri := range a.Reps {
@@ -510,6 +519,9 @@ func (d *driver) runScenario(a *assetInfo, md drmMode, dl delivery, base int64, 
 		switch md.Class {
 		case "eccp":
 			lu := laurl[rep.Kind]
+			if lu == "" || lu == noVal {
+				lu = anyLaurl // a Laurl advertised on another AdaptationSet of the same MPD serves as well
+			}
 			lstatus := 0
 			lpath := noVal
 			if lu != "" && lu != noVal && io.Kid != noVal {
